@@ -9,7 +9,7 @@ ASSUME = [
     'network tier (TestVerifC05Net, harness/localnet): three REAL robustirc binaries started by the repository\'s own launcher (internal/localnet: TLS listeners, rafthttp transport, main()\'s bootstrap and join code, real timers) on loopback; all sequences of depth 2 (quick) / 4 (thorough) over {post, retry, SIGKILL leader, SIGKILL a follower, restart the dead nodes, forced snapshot on every node, SIGKILL all + restart all}, each framed by a post before and after; after every operation EVERY live node serves the reader\'s complete stream up to a marker: acknowledged messages exactly once in post order, the same sequence on all nodes, each node\'s stream extends what it served before',
     'limit of the network tier: fault SEQUENCES are enumerated exhaustively, the timing inside an operation (which instant of an election or replication a kill hits) is whatever the run produces, not enumerated; at most one node is dead at a time (except crash-all); raft consensus itself is trusted; a wait that exceeds its bound (60-90 s) makes the run inconclusive (exhaustive:false, exit 0), never a violation',
 ]
-RULE = ('single-node tier: all sequences of the given depth over {postA, postB, retryA, snapshot, SIGKILL+restart, graceful restart, post-then-SIGKILL}; after every operation both sessions read their whole stream through the real GET handler: '
+RULE = ('single-node tier: all sequences of the given depth over {postA, postB, retryA, snapshot, snapshot with a JOIN/PART of A posted between FSM.Snapshot and Persist (Persist is held back by a wrapper around the FSM handed to raft), SIGKILL+restart, graceful restart, post-then-SIGKILL}; after every operation both sessions read their whole stream through the real GET handler: '
         'acknowledged messages exactly once in post order, unacknowledged at most once, stream after a fault extends the stream before; at the end no client message id twice in the durable log')
 
 def build_net():
